@@ -8,6 +8,8 @@ import Verif.Model.Validity
     x509_bounds, x509_issued_bounds, requested_exact, x5c_limit, x5c_notBefore_backdated,
     renew_same_duration, renew_duration_within_second, acme_dates
     ssh_bounds, ssh_requested_exact, ssh_limit, ssh_no_crash, ssh_renew_same_duration
+    acme_order_exact, ssh_default_crash_iff, ssh_sign_aborts_on_negative_default,
+    ssh_renew_no_crash, ssh_renew_forever_aborts, ssh_renew_292y_aborts
     historic (pre-fix code): ssh_bounds_unguarded_refuted (D6), ssh_no_crash_unguarded_refuted (D7)
 -/
 open Verif Verif.Validity
@@ -1027,5 +1029,134 @@ theorem ssh_renew_same_duration (anow bd : Int) (old c : SshCert)
 
 example : sshRenewDates (d6now + 5) (60 * second) ⟨1700000000#64, 1700057600#64, userCert⟩ =
     .ok ⟨1764403140#64, 1764460740#64, userCert⟩ := by decide
+
+
+/-- **acme_order_exact.** What `NewOrder` stores: requested dates verbatim; an absent `notBefore` is the
+    ACME clock minus one minute, an absent `notAfter` is the (un-backdated) start plus the provisioner's
+    default duration; an order whose dates JSON cannot carry (year > 9999) is not created. -/
+theorem acme_order_exact (clk dflt rnb rna : Int) (o : Cert) (h : acmeNewOrder clk dflt rnb rna = .ok o) :
+    (rnb ≠ 0 → o.nb = rnb) ∧ (rna ≠ 0 → o.na = rna) ∧
+    (rnb = 0 → o.nb = clk - acmeBackdate) ∧
+    (rna = 0 → o.na = (if rnb = 0 then clk else rnb) + dflt) ∧ encodable o.nb ∧ encodable o.na := by
+  unfold acmeNewOrder at h
+  simp only [] at h
+  split at h
+  · rename_i he
+    cases h
+    unfold acmeOrderDates at he ⊢
+    simp only [] at he ⊢
+    refine ⟨?_, ?_, ?_, ?_, he.1, he.2⟩
+    · intro hr; simp [hr]
+    · intro hr; simp [hr]
+    · intro hr; simp [hr]; omega
+    · intro hr; simp [hr]
+  · cases h
+
+/-! ### which configured SSH durations make which request abort -/
+
+
+theorem tdiv_second_neg_iff (d : Int) : Int.tdiv d second < 0 ↔ d ≤ -second := by
+  rw [Int.tdiv_eq_ediv]
+  unfold second
+  split <;> simp [Int.sign] <;> omega
+
+/-- **ssh_default_crash_iff.** Exact characterisation of the hypothesis `hd` of `ssh_no_crash` for the
+    default-duration modifier: with a sane clock and backdate it aborts **iff** no `validBefore` is in
+    effect and the configured default SSH duration of the certificate's type is ≤ −1 s.  (Minimum and
+    maximum SSH durations never make it abort, whatever their values.) -/
+theorem ssh_default_crash_iff (cl : Claimer) (now : Int) (o : SshOpts) (c : SshCert) (d : Int)
+    (hd : cl.defSSH c.ctype = some d) (hbd : 0 ≤ o.backdate) (hnow : 0 ≤ unixOf (trunc now)) :
+    sshDefault cl now o c = .crash ↔ (c.vb = 0#64 ∧ d ≤ -second) := by
+  have h3 : ¬ Int.tdiv o.backdate second < 0 := by
+    have := Int.tdiv_nonneg hbd (by decide : (0:Int) ≤ second); omega
+  have hn : ¬ unixOf (trunc now) < 0 := by omega
+  have hk := tdiv_second_neg_iff d
+  have crash_bind : ∀ (f : U64 → Out SshCert), ((Out.crash : Out U64) >>= f) = .crash := fun _ => rfl
+  unfold sshDefault
+  rw [hd]
+  simp only []
+  by_cases hvb : c.vb = 0#64
+  · by_cases hneg : Int.tdiv d second < 0
+    · have hd' := hk.mp hneg
+      by_cases hva : c.va = 0#64 <;>
+        simp only [hva, hvb, castU64_bind, pure_bind', if_true, if_false, if_neg h3, if_neg hn, if_pos hneg, crash_bind,
+          true_and, hd']
+    · have hd' : ¬ d ≤ -second := fun h => hneg (hk.mpr h)
+      by_cases hva : c.va = 0#64 <;>
+        simp only [hva, hvb, castU64_bind, pure_bind', if_true, if_false, if_neg h3, if_neg hn, if_neg hneg,
+          true_and, hd', iff_false] <;> (split <;> (intro hh; cases hh))
+  · by_cases hva : c.va = 0#64 <;>
+      simp only [hva, hvb, castU64_bind, pure_bind', if_true, if_false, if_neg h3, if_neg hn, false_and, iff_false] <;>
+      (split <;> (intro hh; cases hh))
+
+
+/-- … and through the whole sign chain of a default-duration provisioner (JWK, OIDC, cloud identity,
+    K8sSA): a request that the options stage lets through and that leaves `validBefore` unset aborts
+    the handler when the type's default SSH duration is configured ≤ −1 s — a configuration
+    `Claimer.Validate` accepts (`claims_ssh_unchecked`). -/
+theorem ssh_sign_aborts_on_negative_default (cl : Claimer) (now : Int) (user : SshOpts)
+    (mods : Option U64 × Option U64) (c0 c1 : SshCert) (d : Int)
+    (hmv : modifyValidity now user c0 = .ok c1) (hvb : (applyMods mods c1).vb = 0#64)
+    (hd : cl.defSSH c0.ctype = some d) (hneg : d ≤ -second)
+    (hbd : 0 ≤ user.backdate) (hnow : 0 ≤ unixOf now) :
+    sshSignWith cl .dflt now user mods c0 = .crash := by
+  have hct : (applyMods mods c1).ctype = c0.ctype := by rw [(modifyValidity_ok hmv).1]; rfl
+  have hc := (ssh_default_crash_iff cl now user (applyMods mods c1) d (by rw [hct]; exact hd) hbd
+    (by rw [unixOf_trunc]; exact hnow)).mpr ⟨hvb, hneg⟩
+  unfold sshSignWith
+  rw [hmv]
+  show (sshModify cl .dflt now user (applyMods mods c1) >>= _) = _
+  unfold sshModify
+  simp only []
+  rw [hc]
+  rfl
+
+example : sshSignWith ⟨hardcoded, some { defUser := some (-3600 * second) }⟩ .dflt d6now { backdate := 60 * second }
+    (none, none) ⟨0#64, 0#64, userCert⟩ = .crash := by decide
+
+/-! ### renewSSH / rekeySSH on an authorized certificate (the `cast.Int64(ValidBefore − ValidAfter)` site) -/
+
+/-- For every certificate the validity validator can have issued (`va ≤ vb`, lifetime ≤ 9223372036 s)
+    the conversions in `renewSSH` / `rekeySSH` cannot fail (clock − backdate not before 1970); and once
+    it also passed the renewal gate, the later `cast.Int64(ValidBefore)` of api/sshRenew.go and
+    api/sshRekey.go cannot fail either. -/
+theorem ssh_renew_no_crash (unixNow anow bd : Int) (allowExpired : Bool) (old : SshCert)
+    (hle : old.va.toNat ≤ old.vb.toNat) (hsmall : old.vb.toNat - old.va.toNat ≤ 9223372036)
+    (hbd : 0 ≤ bd) (hbd2 : bd ≤ maxI64) (hclk : 0 ≤ unixOf (anow - bd)) (hnow : unixNow < 4611686018427387904) :
+    sshRenewDates anow bd old ≠ .crash ∧
+    (renewGate unixNow allowExpired old = true → old.va.toNat < 9223372036854775808 ∧ old.vb.toNat < 9223372036854775808) := by
+  constructor
+  · unfold sshRenewDates
+    simp only [castU64_bind, castI64_bind]
+    have hs : ((old.vb - old.va).toNat : Int) = (old.vb.toNat : Int) - old.va.toNat := by
+      rw [BitVec.toNat_sub]
+      have := old.va.isLt
+      have := old.vb.isLt
+      omega
+    rw [hs, secsToDur_small _ (by omega) (by omega), wrap64_neg _ hbd hbd2,
+      wrap64_id _ (by unfold minI64 maxI64 at *; omega) (by unfold maxI64 at *; omega)]
+    unfold unixOf second unixToInternal at *
+    nocrash_finish
+  · intro hg
+    unfold renewGate at hg
+    split at hg
+    · cases hg
+    · rename_i h1
+      omega
+
+/-- The gates alone do not suffice: a certificate valid "forever" (`ValidBefore = CertTimeInfinity`),
+    signed with the CA's SSH key, passes `DefaultAuthorizeSSHRenew` (and `SSHPOP.authorizeToken`), and
+    `renewSSH` / `rekeySSH` then abort in `cast.Int64(ValidBefore − ValidAfter)`.  step-ca itself never
+    issues such a certificate (`ssh_bounds`); one made with the CA key by other means does it. -/
+theorem ssh_renew_forever_aborts :
+    renewGate 1764403200 false ⟨1#64, certTimeInfinity, hostCert⟩ = true ∧
+    sshRenewDates d6now (60 * second) ⟨1#64, certTimeInfinity, hostCert⟩ = .crash := by decide
+
+/-- Same for a 292-year certificate (lifetime 9223372100 s): it passes the gates, the wrapping product
+    is about −292 years, and `cast.Uint64(vb.Unix())` aborts. -/
+theorem ssh_renew_292y_aborts :
+    renewGate 1764403200 false ⟨1764403000#64, 10987775100#64, hostCert⟩ = true ∧
+    sshRenewDates d6now (60 * second) ⟨1764403000#64, 10987775100#64, hostCert⟩ = .crash := by decide
+
 
 end Verif.Validity
